@@ -137,6 +137,71 @@ func init() {
 		Explanation: "Decides three structural clauses: (1) operands are never modified — the purity obligations of the write-effect analysis on Sequence.Merge/SubMerge/Truncate, every Expr.Merge/Get and every SubMerge function (exactly the property's 'never modifies its operands'); (2) every combiner reads both operands (an operand-ignoring merge cannot be a homomorphism); (3) cached encoded widths agree with the wrapped expression.",
 		NotDecided:  []string{"commutativity/associativity in value", "alignment arithmetic of Merge (lead/overlap/gap/tail), SubMerge index arithmetic, Truncate boundaries — these quantify over numeric values"},
 		Assumptions: []string{"external pure-reader table follows documented contracts", "VTA call graph over-approximates dynamic calls"},
-		Rules: []func(*Ctx){func(c *Ctx) { rulePurity(c, "C05.a") }, ruleC05b, ruleC05c},
+		Rules: []func(*Ctx){func(c *Ctx) { rulePurity(c, "C05.a") }, ruleC05b, ruleC05c, func(c *Ctx) { ruleC05d(c, "C05.d") }},
 	})
+}
+
+// ruleC05d: operand validity and layout opacity.
+func ruleC05d(c *Ctx, rule string) {
+	c.describe(rule, "dom/flow: aggregate.Merge invokes the registered merge function only when the operand passed as 'next' was set (the registered functions only handle an unset 'current'); Sequence.SubMerge's and Sequence.Merge's per-period loops never branch on the period's own bytes — the encoding of a period is expression-specific and only Expr.Merge / the SubMerge function may interpret it")
+	if mg := c.need(rule, "(*z/expr.aggregate).Merge"); mg != nil {
+		n := 0
+		for _, call := range calls(mg) {
+			if call.Common().StaticCallee() != nil || call.Common().IsInvoke() || !isFieldLoad(call.Common().Value, "z/expr.aggregate.merge") {
+				continue
+			}
+			n++
+			a := call.Common().Args
+			// next = a[2]: result 0 of a load(); its wasSet (result 1 of the same call) must be a positive guard
+			var ld *ssa.Call
+			if ex, ok := strip(a[2]).(*ssa.Extract); ok {
+				ld, _ = ex.Tuple.(*ssa.Call)
+			}
+			ok := false
+			if ld != nil {
+				for _, g := range guardsOf(call.Block()) {
+					if ex, isEx := g.v.(*ssa.Extract); isEx && g.pos && ex.Index == 1 && ex.Tuple == ssa.Value(ld) {
+						ok = true
+					}
+				}
+			}
+			c.check(rule, "aggregate.Merge: merge() only with a set 'next' operand", call.Pos(), ok, "guarded by the operand's wasSet flag", "the registered merge function can be invoked with an operand that was never set (value 0): MIN over positive / MAX over negative values fold in a bogus 0 and merging is no longer commutative")
+		}
+		c.floor(rule, "merge-function calls in aggregate.Merge", n, 1)
+	}
+	for _, name := range []string{"(z/encoding.Sequence).SubMerge", "(z/encoding.Sequence).Merge"} {
+		fn := c.need(rule, name)
+		if fn == nil {
+			continue
+		}
+		bad := ""
+		nIf := 0
+		for _, l := range loopsOf(fn) {
+			for b := range l.body {
+				i := ifOf(b)
+				if i == nil {
+					continue
+				}
+				nIf++
+				if dependsOn(i.Cond, func(v ssa.Value) bool {
+					// a read of sequence bytes: element load of a byte slice, or a call receiving a byte slice of a sequence
+					if u, ok := v.(*ssa.UnOp); ok && u.Op == token.MUL {
+						if ia, ok := u.X.(*ssa.IndexAddr); ok && isByteSlice(ia.X.Type()) {
+							return true
+						}
+					}
+					if call, ok := v.(*ssa.Call); ok {
+						cn := calleeName(call)
+						if hasPrefixAny(cn, "(encoding/binary.bigEndian).Uint", "bytes.") {
+							return true
+						}
+					}
+					return false
+				}) {
+					bad = c.P.Pos(i.Pos())
+				}
+			}
+		}
+		c.check(rule, name+": the period loop does not interpret period bytes", fn.Pos(), bad == "", itoa(nIf)+" branch(es) in the loop, none on the bytes of a period", "a branch inside the per-period loop depends on the raw bytes of a period (at "+bad+"): the byte layout is expression-specific (e.g. left||right for binary expressions), so a generic 'is it empty' test drops periods of composite expressions")
+	}
 }
